@@ -436,6 +436,13 @@ class simplify_chained_calls(FuncADLNodeTransformer):
         else:
             return FuncADLNodeTransformer.visit_Call(self, call_node)
 
+    def visit_Lambda(self, node: ast.Lambda):
+        """Give the lambda fresh parameter names before looking inside it. Its parameters then
+        can neither be confused with a called-lambda argument of the same name that is being
+        substituted, nor capture a name that is free in an expression moved under it.
+        """
+        return self.generic_visit(make_args_unique(node))
+
     def visit_Subscript_Tuple(self, v: ast.Tuple, s: ast.Constant):
         """
         (t1, t2, t3...)[1] => t2
